@@ -42,17 +42,17 @@ type Node struct {
 	HA *atree.Array
 	HM *atree.OrderedMap
 	// bookkeeping for labels
-	HandleStep   int // step at which the handle was acquired
-	ParentShape  int // shape generation of the parent when the handle was acquired
-	Shape        int // incremented whenever this container splits/merges (slab count changes)
-	LastSlabs    int
-	WasInlined   bool
-	Detached     bool
-	Former       *Node // container it was detached from (C11)
-	Gen          int   // changes whenever the designated handle object of this container changes
-	HandleParentGen int // Gen of the parent at the time this container's handle was obtained
-	SeenInline   bool
-	SeenStandalone bool
+	HandleStep      int // step at which the handle was acquired
+	ParentShape     int // shape generation of the parent when the handle was acquired
+	Shape           int // incremented whenever this container splits/merges (slab count changes)
+	LastSlabs       int
+	WasInlined      bool
+	Detached        bool
+	Former          *Node // container it was detached from (C11)
+	Gen             int   // changes whenever the designated handle object of this container changes
+	HandleParentGen int   // Gen of the parent at the time this container's handle was obtained
+	SeenInline      bool
+	SeenStandalone  bool
 }
 
 func (n *Node) Count() int {
